@@ -6,7 +6,7 @@ From CM Require Import lib.Prelude model.ExportEffects proofs.C14_proofs.
 From Coq Require Import Permutation Sorted.
 
 (* ---- each writer leaves its argument as it was: for ALL matrices ---- *)
-(* writers that only read, and dbc/dbf which deep-copy: whatever the other three do *)
+(* writers that only read, and dbc/dbf which deep-copy: whatever arxml and fibex do *)
 Theorem export_effect_identity_csv : forall copies m, effect copies Csv m = m.
 Proof. exact effect_identity_csv. Qed.
 Print Assumptions export_effect_identity_csv.
@@ -38,32 +38,35 @@ Theorem export_effect_identity_xls : forall copies m, effect copies Xls m = m.
 Proof. exact effect_identity_xls. Qed.
 Print Assumptions export_effect_identity_xls.
 
-(* arxml, fibex, kcd: identity once they work on a copy (the proposed fixes) ... *)
+(* arxml, fibex: identity once they work on a copy (the fixes) ... *)
 Theorem export_effect_identity_arxml : forall m, effect true Arxml m = m.
 Proof. exact (effect_copies_identity Arxml). Qed.
 Print Assumptions export_effect_identity_arxml.
 Theorem export_effect_identity_fibex : forall m, effect true Fibex m = m.
 Proof. exact (effect_copies_identity Fibex). Qed.
 Print Assumptions export_effect_identity_fibex.
-Theorem export_effect_identity_kcd : forall m, effect true Kcd m = m.
-Proof. exact (effect_copies_identity Kcd). Qed.
+(* kcd: since /repo b679340 the CanCluster it builds keeps its merged view in objects of its own; with or without the deep copy *)
+Theorem export_effect_identity_kcd : forall copies m, effect copies Kcd m = m.
+Proof. exact effect_identity_kcd. Qed.
 Print Assumptions export_effect_identity_kcd.
 
-(* ... and NOT on the tree before the fixes (findings F-C14a, b, c and the signal variant of c) *)
+(* ... and NOT on the tree before the fixes (findings F-C14a, b) *)
 Theorem export_effect_identity_arxml_unfixed_refuted : exists m, effect false Arxml m <> m.
 Proof. exact arxml_unfixed_refuted. Qed.
 Print Assumptions export_effect_identity_arxml_unfixed_refuted.
 Theorem export_effect_identity_fibex_unfixed_refuted : exists m, effect false Fibex m <> m.
 Proof. exact fibex_unfixed_refuted. Qed.
 Print Assumptions export_effect_identity_fibex_unfixed_refuted.
-Theorem export_effect_identity_kcd_unfixed_refuted : exists m, effect false Kcd m <> m.
-Proof. exact kcd_unfixed_refuted. Qed.
-Print Assumptions export_effect_identity_kcd_unfixed_refuted.
+(* CanCluster's own view (cluster.frames / cluster.signals) is NOT the member matrix when names repeat - which is why it must live in
+   objects of its own (before b679340 it was built in the member's objects: the recorded, fixed defect of kcd.dump) *)
+Theorem cluster_view_equals_members_refuted : exists m, cluster_view m <> m.
+Proof. exact cluster_view_refuted. Qed.
+Print Assumptions cluster_view_equals_members_refuted.
 (* unique frame names do not save KCD: equally named signals in two frames are merged as well *)
-Theorem export_effect_identity_kcd_unfixed_refuted_by_signal_names :
-  exists m, NoDup (frame_names m) /\ effect false Kcd m <> m.
-Proof. exact kcd_unfixed_refuted_signals. Qed.
-Print Assumptions export_effect_identity_kcd_unfixed_refuted_by_signal_names.
+Theorem cluster_view_equals_members_refuted_by_signal_names :
+  exists m, NoDup (frame_names m) /\ cluster_view m <> m.
+Proof. exact cluster_view_refuted_signals. Qed.
+Print Assumptions cluster_view_equals_members_refuted_by_signal_names.
 
 (* the unfixed tree inside the envelope that excludes each finding *)
 Theorem export_effect_identity_arxml_unfixed_partial :
@@ -74,10 +77,10 @@ Theorem export_effect_identity_fibex_unfixed_partial :
   forall m, NoDup (frame_names m) -> effect false Fibex m = m.
 Proof. exact fibex_rename_id. Qed.
 Print Assumptions export_effect_identity_fibex_unfixed_partial.
-Theorem export_effect_identity_kcd_unfixed_partial :
-  forall m, NoDup (frame_names m) -> NoDup (signal_names m) -> effect false Kcd m = m.
+Theorem cluster_view_equals_members_partial :
+  forall m, NoDup (frame_names m) -> NoDup (signal_names m) -> cluster_view m = m.
 Proof. exact cluster_update_id. Qed.
-Print Assumptions export_effect_identity_kcd_unfixed_partial.
+Print Assumptions cluster_view_equals_members_partial.
 
 (* ---- a later export sees the matrix the first one saw: any history of exports, any rendering function ---- *)
 Theorem export_history_identity : forall ws m, after_exports true ws m = m.
@@ -107,7 +110,7 @@ Print Assumptions second_export_equals_first_unfixed_refuted.
 
 Theorem second_export_equals_first_unfixed_partial :
   forall (Bytes : Type) (render : writer -> matrix -> Bytes) (ws : list writer) (b : writer) (m : matrix),
-    receivers_propagated m -> NoDup (frame_names m) -> NoDup (signal_names m) ->
+    receivers_propagated m -> NoDup (frame_names m) ->
     render b (after_exports false ws m) = render b m.
 Proof. exact second_export_unfixed_partial_lemma. Qed.
 Print Assumptions second_export_equals_first_unfixed_partial.
